@@ -33,7 +33,9 @@ def decls_for(config):
     for index, (empty, size) in enumerate(config["fields"]):
         decl = {"type": "VerifRec", "name": "f%d" % index, "empty": bool(empty), "preset": config["preset"]}
         if config["preset"] == "fixed":
-            decl["width"] = size
+            decl["width"] = size[-1] if isinstance(size, tuple) else size
+        elif isinstance(size, tuple):  # (n, lower, upper): the multi-part length "n, lower...upper" with a gap in between
+            decl["length"] = [[size[0], size[0], True], [size[1], size[2], False]]
         elif size:
             decl["length"] = [[1, size, False]]
         if config.get("allowed"):
@@ -210,7 +212,9 @@ def configs(tier):
     result = []
     for preset in ("delimited", "fixed"):
         for header in (0, 1, 2):
-            for fields in ([(False, 3)], [(True, 4), (False, 2)], [(False, 2), (True, 3), (False, 3)]):
+            for fields in ([(False, 3)], [(True, 4), (False, 2)], [(False, 2), (True, 3), (False, 3)], [(False, (1, 3, 4)), (True, 4)]):
+                if isinstance(fields[0][1], tuple) and (preset == "fixed" or tier == "quick" and header == 2):
+                    continue
                 for checks in ([], ["ok"], ["veto:ab", "ok"], ["ok", "end", "ok"], ["end", "veto:b"]):
                     for allowed in (False, True) + (("noblank",) if preset == "fixed" and len(fields) < 3 else ()):
                         if tier == "quick" and (header == 2 or len(fields) == 3) and (allowed or len(checks) == 1):
